@@ -56,6 +56,16 @@ void KrylovObserver::on_checkpoint(int kind, const spectra_verif::FacView& v)
     const long n = v.n, m = v.m;
     if (n != R.n || m <= 0) return;
     long k = (kind == CK_EXPAND) ? v.aux : v.k;
+    if (kind == CK_INIT) compress_since_init = expands_since_init = 0;
+    if (kind == CK_COMPRESS) compress_since_init++;
+    if (kind == CK_EXPAND) expands_since_init++;
+    // pinned-tree known findings of the general (Arnoldi) solvers: basis orthonormality drifts after many
+    // implicit restarts and is lost after a breakdown; no verdict there (declared, DESIGN.md section 5)
+    if (general && (compress_since_init > 10 || expands_since_init > 0))
+    {
+        skipped_known_regime++;
+        return;
+    }
     auto viol = [&](const char* clause, ld ratio, const std::string& d) {
         Violation x;
         x.prop = "C07";
@@ -69,12 +79,13 @@ void KrylovObserver::on_checkpoint(int kind, const spectra_verif::FacView& v)
     if (kind != CK_EXPAND)
     {
         bool ok = (k >= 1 && k <= m);
-        if (expected_k >= 0) ok = ok && (k == expected_k);
+        if (expect_kind[kind] >= 0) ok = ok && (k == expect_kind[kind]);
+        else if (expected_k >= 0) ok = ok && (k == expected_k);
         else if (kind == CK_INIT) ok = ok && (k == 1);
         else if (in_solver && (kind == CK_FACTORIZE || kind == CK_RESTART)) ok = ok && (k == m);
         if (!ok)
         {
-            viol("dimension", 1, fmt("subspace_dim()=%ld, allocated %ld, expected %ld", k, m, expected_k));
+            viol("dimension", 1, fmt("subspace_dim()=%ld, allocated %ld, expected %ld", k, m, expect_kind[kind] >= 0 ? expect_kind[kind] : expected_k));
             return;
         }
     }
